@@ -654,7 +654,7 @@ def _thr_run(out, exe, vname, reps, tool, shards=4, wrapper=(), threads=16, time
 def c18(out):
     out.rule = ("repetition index -> workload (distinct objects / shared read-only key schedules and parallel-ECB objects / init+cleanup storm) x back-end cap; 16 threads released by a barrier run generated CTR and parallel "
                 "histories, reads on shared schedules, or init/use/cleanup loops with random yields and sleeps between calls; oracles: ThreadSanitizer (gcc, thorough: clang; helgrind on the shipped build) must print no report, "
-                "and every thread's transcript must equal the transcript of the same work computed sequentially beforehand; additionally fresh processes make their very first library calls (incl. the CPU probe) from 16 threads at once, and a single-threaded monitor runs parallel-ECB histories with the object's heap state mprotect'ed read-only during every encrypt/decrypt/crypt call (a write faults). Evidence counts threads simultaneously inside library calls and distinct interleaving signatures. "
+                "and every thread's transcript must equal the transcript of the same work computed sequentially beforehand; additionally fresh processes make their very first library calls (incl. the CPU probe) from 16 threads at once, a lock-free two-stage pipeline hands the output of large (64 KiB..1 MiB) parallel-ECB/CTR calls to a second thread by release/acquire atomics only (no fence, lock or join after the library returns) and the consumer, using its own object on the trailer first, must see the sequential result; and a single-threaded monitor runs parallel-ECB histories with the object's heap state mprotect'ed read-only during every encrypt/decrypt/crypt call (a write faults). Evidence counts threads simultaneously inside library calls and distinct interleaving signatures. "
                 "distinct = distinct repetition contents (history hashes / seeds).")
     # positive control: the detector must see a deliberate race
     exe = build_driver("drv_thr", ["drv_thr.c"] + HIST, "tsan", libs=["-pthread"])
@@ -680,6 +680,11 @@ def c18(out):
         exe = build_driver("drv_thr", ["drv_thr.c"] + HIST, "prod", libs=["-pthread"])
         _thr_run(out, exe, "prod", n(out, 600, 600), "plain", shards=4)
         _thr_first_init(out, exe, "prod", n(out, 48, 48), tool="plain")
+    # lock-free pipeline: outputs of large calls handed to a second thread by release/acquire atomics only (no fence, lock or join in between)
+    run_sharded(out, exe, ["--mode", "pipeline"], "prod", n(out, 36, 1800), shards=6, label="lock-free-pipeline")
+    if out.tier == "thorough":
+        exe_n = build_driver("drv_thr", ["drv_thr.c"] + HIST, "prod+NATIVE", libs=["-pthread"])
+        run_sharded(out, exe_n, ["--mode", "pipeline"], "prod+NATIVE", 600, shards=6, label="lock-free-pipeline")
     # read-only monitor: the heap state of parallel-ECB objects is PROT_READ while encrypt/decrypt/crypt run on it
     exe = build_driver("drv_life", ["drv_life.c", "allocmon.c"] + HIST, "prod", extra=WRAP)
     run_sharded(out, exe, ["--prop", "C18", "--mode", "c15"], "prod", n(out, 1200, 40000), label="read-only-object-state")
